@@ -1,0 +1,14 @@
+//go:build verif && (amd64 || arm64)
+
+package websocket
+
+// VerifHasMaskAsm reports that the assembly masking routine is linked in.
+const VerifHasMaskAsm = true
+
+// VerifMaskAsm exposes the assembly masking implementation.
+func VerifMaskAsm(b []byte, key uint32) uint32 {
+	if len(b) > 0 {
+		return maskAsm(&b[0], len(b), key)
+	}
+	return key
+}
